@@ -201,7 +201,7 @@ func H_Faults() {
 	w.Regs[2].Variant = 0
 	vrt.Assume(buildable(w))
 	// the failing constructor's shape: (T, error), (T, A, error) or (result object, error)
-	fform := []int{kit.IdPlain, kit.IdMulti, kit.IdResObj}[vrt.Pick("fform", 0, 2)]
+	fform := []int{kit.IdPlain, kit.IdMulti, kit.IdResObj, kit.IdIface}[vrt.Pick("fform", 0, 3)]
 	viaModule := vrt.Pick("module", 0, 1) == 1
 	kit.FaultSlot = vrt.Pick("fslot", 0, 2)
 	kit.FaultNth = vrt.Pick("fnth", 1, 2)
@@ -209,6 +209,17 @@ func H_Faults() {
 	// fault kinds here are "returns an error" and "panics"
 	kit.FaultKind = []int{kit.FaultError, kit.FaultPanic, kit.FaultWrapped}[vrt.Pick("fkind", 0, 2)]
 	fs := kit.FaultSlot
+	// a constructor declared to return an interface can only head the chain (the
+	// others are consumed by concrete type); it may also "fail" by returning a nil
+	// interface without error, which the container rejects
+	vrt.Assume(fform != kit.IdIface || fs == 0)
+	if fform == kit.IdIface && vrt.Pick("nilresult", 0, 1) == 1 {
+		kit.FaultKind = kit.FaultNil
+	}
+	topType := kit.TypeS[0]
+	if fform == kit.IdIface {
+		topType = kit.TypeI0
+	}
 	w.Regs[fs].Form = fform
 	invocations := func() int {
 		n := 0
@@ -294,7 +305,7 @@ func H_Faults() {
 		callsBefore := invocations()
 		var v any
 		var err error
-		panicked, pv := guard(func() { v, err = sc.Get(kit.TypeS[0]) })
+		panicked, pv := guard(func() { v, err = sc.Get(topType) })
 		vrt.Assert(!panicked, "C15.panic_escaped", "Get panicked:", pv)
 		if panicked {
 			return
